@@ -41,6 +41,16 @@ CLAIMS['C16'] = dict(
     technique="Lean 4 proof (error-discipline predicate by induction over the universe) + differential correspondence check",
     design_ref="§5 C16")
 
+CLAIMS['C02'] = dict(
+    text=("Kernel-checked theorem C02_refines_spec: for every type of the universe (sets, maps, deques, wrappers, "
+          "derived items) and every value, to_vec of the model equals Spec.enc (a separate function written from the "
+          "specification text: LE integers/floats, 0/1 tags, u32 counts, no count for arrays/tuples, fields in order, "
+          "u8 variant tag, ascending keys) or refuses in the same class; C02_nan_refused, C02_too_long_refused. "
+          "Differential run: real to_vec bytes are compared with both the model and Spec.enc evaluated by the driver, "
+          "so a symmetric codec change that survives every round-trip test is seen."),
+    technique="Lean 4 refinement proof (implementation model refines specification encoder, induction over the universe) + differential check against Spec.enc",
+    design_ref="§5 C02")
+
 NOT_YET = {
 }
 
